@@ -223,6 +223,9 @@ func writeSTL(wg *sync.WaitGroup, path string) (chan<- []*sdf.Triangle3, error) 
 				if err := binary.Write(buf, binary.LittleEndian, &d); err != nil {
 					verifEv("wr.err", 0, int(count), 0)
 					fmt.Printf("%s\n", err)
+					// keep reading the channel so the renderer is never blocked on it
+					for range c {
+					}
 					return
 				}
 				count++
